@@ -257,6 +257,7 @@ Fixpoint hist_ok (steps : list hstep) (s : state) (prev : snapshot) : Prop :=
       /\ snapshot_eqb (snap_of_state (fst (run_macro (hs_ops st) s))) (hs_snap st) = true
       /\ sepb (hs_snap st) = true
       /\ frameb (hs_tgt st) prev (hs_snap st) = true
+      /\ hs_args_same st = true
       /\ hist_ok t (fst (run_macro (hs_ops st) s)) (hs_snap st)
   end.
 
@@ -267,15 +268,16 @@ Proof.
   induction steps as [|st t IH]; intros s prev; cbn [hist_code hist_ok]; [tauto|].
   destruct (run_macro (hs_ops st) s) as [s' r] eqn:E. cbn [fst snd].
   set (b0 := Bool.eqb r (hs_raised st) && snapshot_eqb (snap_of_state s') (hs_snap st)).
-  set (b1 := sepb (hs_snap st)). set (b2 := frameb (hs_tgt st) prev (hs_snap st)).
+  set (b1 := sepb (hs_snap st)). set (b2 := frameb (hs_tgt st) prev (hs_snap st) && hs_args_same st).
   destruct (bit 0 b0 + bit 1 b1 + bit 2 b2) as [|c] eqn:Ec.
   - assert (H0 : bit 0 b0 = 0) by lia. assert (H1 : bit 1 b1 = 0) by lia. assert (H2 : bit 2 b2 = 0) by lia.
     apply bit_zero in H0, H1, H2. unfold b0 in H0. apply Bool.andb_true_iff in H0. destruct H0 as [Hr Hs].
-    apply Bool.eqb_prop in Hr. rewrite IH. tauto.
-  - split; [discriminate|]. intros (Hr & Hs & H1 & H2 & _). exfalso.
+    apply Bool.eqb_prop in Hr. unfold b2 in H2. apply Bool.andb_true_iff in H2. rewrite IH. tauto.
+  - split; [discriminate|]. intros (Hr & Hs & H1 & H2a & H2b & _). exfalso.
+    assert (H2 : b2 = true) by (unfold b2; rewrite H2a, H2b; reflexivity).
     assert (Hb0 : b0 = true) by (unfold b0; rewrite Hr, Hs, Bool.eqb_reflx; reflexivity).
     apply (bit_zero 0) in Hb0. apply (bit_zero 1) in H1. apply (bit_zero 2) in H2.
-    fold b1 in H1. fold b2 in H2. lia.
+    fold b1 in H1. lia.
 Qed.
 
 (* ------------------------------------------------------------------ *)
